@@ -7,6 +7,7 @@ TYPES = [(r'tensor_mem_t<double, 1>|tensor_t<nano::tensor_vector_storage_t, doub
          (r'Matrix<double, -1, 1, 0.*>::Scalar$', 'double')]
 STD = [(r'^begin\|', '{0}.p'), (r'^end\|', '({0}.p + {0}.n)'),
        (r'^upper_bound\|const double \*\(const double \*, const double \*, const (long|double) &\)', 'nv_upper_bound_f64({0}, {1}, (double)({2}))'),
+       (r'^lower_bound\|const double \*\(const double \*, const double \*, const (long|double) &\)', 'nv_lower_bound_f64({0}, {1}, (double)({2}))'),
        (r'^distance\|', '({1} - {0})')]
 
 
@@ -80,9 +81,10 @@ def build(tier):
     med_s = Fn('median_sorted', TU, 'median_sorted', flt='nano::', select=ptypes('const double *', 'const double *'), calls=stdmap)
     med = Fn('median', TU, 'median', flt='nano::', select=ptypes('double *', 'double *'), calls=stdmap)
     hcalls = [(r'^operator\(\)\|.*tensor_vector_storage_t, (double|long), 1', '{0}.p[{1}]'),
-              (r'^upper_bound\|double \*\(double \*, double \*, const double &, \(lambda', 'nv_upper_bound_cmp({0}, {1}, {2})'),
+              (r'^upper_bound\|(double|long) \*\((double|long) \*, (double|long) \*, const double &, \(lambda', 'nv_upper_bound_cmp({0}, {1}, {2})'),
+              (r'^lower_bound\|(double|long) \*\((double|long) \*, (double|long) \*, const (double|long) &\)', 'nv_lower_bound_elem({0}, {1}, {2})'),
               (r'^distance\|', '({1} - {0})'), (r'^quiet_NaN\|', 'nv_quiet_nan()'),
-              (r'^median_sorted\|', 'nv_median_sorted_range({0}, {1})'), (r'^mean\|nano::scalar_t \(double \*, double \*', 'nv_mean_range({0}, {1}, {2})')]
+              (r'^median_sorted\|', 'nv_median_sorted_range({0}, {1})'), (r'^mean\|nano::scalar_t \((double|long) \*, (double|long) \*', 'nv_mean_range({0}, {1}, {2})')]
     hmembers = [(r'^size\|.*tensor_base_t<double, 1', 'nv_t1d_size'), (r'^resize\|.*tensor_vector_storage_t(, |<)double, 1', 'nv_t1d_resize'),
                 (r'^resize\|.*tensor_vector_storage_t(, |<)long, 1', 'nv_t1i_resize'), (r'^(zero|full)\|', 'nv_fill_erased()'),
                 (r'^update_bin\|', 'update_bin_cov'), (r'^mean\|.*histogram_t.*#3', 'nv_mean_range({0}, {1}, {2})')]
@@ -90,8 +92,15 @@ def build(tier):
     upd = Fn('histogram_update', TU, 'update', flt='nano::histogram_t', select=targs('double *'), **hk)
     hk_nolam = dict(hk)
     hk_nolam.pop('self_struct')
-    updop = lambda: Fn('update_op', TU, 'update', flt='nano::histogram_t', select=targs('double *'), lambda_index=0, **hk_nolam)
+    updop = lambda: Fn('update_op', TU, 'update', flt='nano::histogram_t', select=targs('double *'), lambda_index=0, optional=True, **hk_nolam)
     updbin = Fn('update_bin', TU, 'update_bin', flt='nano::histogram_t', select=targs('double *'), **hk)
+    # integer-valued lists ("lists of 1..500 integers or reals"): the same contracts on the long* instantiation
+    upd_i = Fn('histogram_update', TU, 'update', flt='nano::histogram_t', select=targs('long *'), **hk)
+    updop_i = lambda: Fn('update_op', TU, 'update', flt='nano::histogram_t', select=targs('long *'), lambda_index=0, optional=True, **hk_nolam)
+    updbin_i = Fn('update_bin', TU, 'update_bin', flt='nano::histogram_t', select=targs('long *'), **hk)
+    targets += [Target('histogram_update_i64', [upd_i, updop_i()], 'specs/C20/update.h', replace=['update_op'], defines=['NV_ELEM=int64_t']),
+                Target('update_op_i64', [updop_i()], 'specs/C20/update.h', defines=['NV_ELEM=int64_t']),
+                Target('update_bin_i64', [updbin_i], 'specs/C20/update.h', defines=['NV_ELEM=int64_t'])]
     targets += [Target('histogram_update', [upd, updop()], 'specs/C20/update.h', replace=['update_op']),
                 Target('update_op', [updop()], 'specs/C20/update.h'), Target('update_bin', [updbin], 'specs/C20/update.h')]
     targets += [Target('from_position_sorted', [fps], 'specs/C20/stats.h'), Target('from_position_unsorted', [fpu], 'specs/C20/stats.h'),
@@ -118,16 +127,17 @@ def replay(rp):
         thr = ce.get('nv_w_thr', ce.get('nv_upper_bound_f64::nv_w_thr'))
         if v is None:
             continue
-        cands = [[thr]] if thr is not None else []
-        cands += [[0.25], [0.0]]
-        for th in cands:
-            for q in ([v] if thr is not None and th == [thr] else [v, 0.5, -0.5]):
-                try:
-                    rc, so, se = replaylib.run_driver(exe, ['bin', repr(float(q))] + [repr(float(t)) for t in th])
-                except Exception as e:
-                    out['runs'].append({'error': repr(e)})
-                    continue
-                out['runs'].append({'obligation': fo['id'], 'query': q, 'thresholds': th, 'exit': rc, 'output': so.strip()})
-                if rc == 1:
-                    out['reproduced'] = True
+        probes = []
+        if thr is not None:
+            probes += [([thr], v), ([thr, thr], v), ([thr, thr], thr), ([thr, thr, thr], thr)]
+        probes += [([0.25], v), ([0.0], v), ([0.25], 0.5), ([0.0], -0.5), ([2.0, 2.0], 2.0), ([1.0, 2.0, 2.0, 3.0], 2.0)]
+        for th, q in probes:
+            try:
+                rc, so, se = replaylib.run_driver(exe, ['bin', repr(float(q))] + [repr(float(t)) for t in th])
+            except Exception as e:
+                out['runs'].append({'error': repr(e)})
+                continue
+            out['runs'].append({'obligation': fo['id'], 'query': q, 'thresholds': th, 'exit': rc, 'output': so.strip()})
+            if rc == 1:
+                out['reproduced'] = True
     return out
